@@ -138,7 +138,12 @@ func build(stmt *Statement, parent reflect.Value, types *typeDictionary) (v refl
 	if k, ok := aliases[stmt.Keyword]; ok {
 		keyword = k
 	}
-	t := nameMap[keyword]
+	t, ok := nameMap[keyword]
+	if !ok {
+		// No Node type is known for this keyword (this can only be a
+		// top-level statement: substatements are looked up in y.funcs).
+		return nilValue, fmt.Errorf("%s: unknown statement: %s", stmt.Location(), stmt.Keyword)
+	}
 	y := typeMap[t]
 	// Keep track of which substatements are present in the statement.
 	found := map[string]bool{}
